@@ -104,6 +104,46 @@ Qed.
 Lemma jdepth_arr x l : In x l -> (json_depth x < json_depth (JArr l))%nat.
 Proof. intro H. cbn [json_depth]. pose proof (fold_max_le json_depth x l H). lia. Qed.
 
+Lemma forallb_map {A B} (p : B -> bool) (g : A -> B) l : forallb p (map g l) = forallb (fun x => p (g x)) l.
+Proof. induction l as [|x l IH]; simpl; [reflexivity|]. rewrite IH. reflexivity. Qed.
+Lemma forallb_impl {A} (p q : A -> bool) l :
+  (forall x, In x l -> p x = true -> q x = true) -> forallb p l = true -> forallb q l = true.
+Proof.
+  induction l as [|x l IH]; simpl; intros H Hp; [reflexivity|]. apply andb_true_iff in Hp as [H1 H2].
+  rewrite (H x) by auto. simpl. apply IH; auto.
+Qed.
+
+(* ---------------- the JSON text layer is the identity on values without surrogate pairs ---------------- *)
+Lemma json_ind' (P : json -> Prop) :
+  P JNull -> (forall b, P (JBool b)) -> (forall z, P (JNum z)) -> (forall m e, P (JFloat m e)) -> (forall s, P (JStr s)) ->
+  (forall l, Forall P l -> P (JArr l)) -> (forall l, Forall (fun kv => P (snd kv)) l -> P (JObj l)) -> forall j, P j.
+Proof.
+  intros H1 H2 H3 H4 H5 H6 H7. fix IH 1. intros [|b|z|m e|s|l|l]; [apply H1|apply H2|apply H3|apply H4|apply H5| | ].
+  - apply H6. induction l as [|x l IHl]; constructor; [apply IH | exact IHl].
+  - apply H7. induction l as [|[k v] l IHl]; constructor; [apply IH | exact IHl].
+Qed.
+
+Lemma merge_pairfree s : pairfree s = true -> merge_pairs s = s.
+Proof.
+  induction s as [|a s IH]; [reflexivity|]. destruct s as [|b r]; [reflexivity|].
+  intro H. change (negb (hi_sur a && lo_sur b) && pairfree (b :: r) = true) in H.
+  apply andb_true_iff in H as [H1 H2]. apply negb_true_iff in H1.
+  change (merge_pairs (a :: b :: r)) with
+    (if hi_sur a && lo_sur b then (65536 + (a - 55296) * 1024 + (b - 56320))%N :: merge_pairs r else a :: merge_pairs (b :: r)).
+  rewrite H1. rewrite IH by exact H2. reflexivity.
+Qed.
+
+Lemma jclean_norm j : json_clean j = true -> json_norm j = j.
+Proof.
+  induction j as [| | | |s|l IH|l IH] using json_ind'; try reflexivity; cbn [json_clean json_norm]; intro H.
+  - rewrite merge_pairfree by exact H. reflexivity.
+  - f_equal. induction l as [|x l IHl]; [reflexivity|]. cbn [forallb] in H. apply andb_true_iff in H as [Hx Hl].
+    inversion IH; subst. cbn [map]. rewrite H1 by exact Hx. rewrite IHl by assumption. reflexivity.
+  - f_equal. induction l as [|[k v] l IHl]; [reflexivity|]. cbn [forallb fst snd] in H. apply andb_true_iff in H as [Hx Hl].
+    apply andb_true_iff in Hx as [Hk Hv]. inversion IH; subst. cbn [map fst snd] in *.
+    rewrite merge_pairfree by exact Hk. rewrite H1 by exact Hv. rewrite IHl by assumption. reflexivity.
+Qed.
+
 Section JsonRoundTrip.
 Variable tc : textcodec.
 Hypothesis Hc : codec_ok tc.
@@ -212,13 +252,117 @@ Proof.
     result_tac; links_tac; result_tac; rewrite Hs; result_tac; reflexivity.
 Qed.
 
+(* ---------------- the trees written for json_safe reports have no surrogate pair ---------------- *)
+Hypothesis Hj : codec_json_ok tc.
+
+Lemma time_jclean o : json_clean (json_save_time tc o) = true.
+Proof. destruct o; [apply Hj | reflexivity]. Qed.
+Lemma ostr_jclean o : opt_all pairfree o = true -> json_clean (enc_ostr o) = true.
+Proof. destruct o; auto. Qed.
+Lemma strlist_jclean l : forallb pairfree l = true -> json_clean (enc_strlist l) = true.
+Proof. intro H. unfold enc_strlist. cbn [json_clean]. rewrite forallb_map. exact H. Qed.
+Lemma props_jclean l : forallb (fun kv => pairfree (fst kv) && pairfree (snd kv)) l = true -> json_clean (enc_props l) = true.
+Proof. intro H. unfold enc_props. cbn [json_clean]. rewrite forallb_map. exact H. Qed.
+
+Ltac split_and :=
+  repeat match goal with
+         | H : (_ && _)%bool = true |- _ => apply andb_true_iff in H; destruct H
+         end.
+Ltac conj := repeat match goal with |- (_ && _)%bool = true => apply andb_true_intro; split end.
+Ltac jcsimp := cbn -[pairfree json_save_time json_save_steps json_save_test json_save_suite json_save_result
+                     enc_ostr enc_strlist enc_props map].
+Ltac jleaf :=
+  first [ assumption | reflexivity | apply time_jclean | apply ostr_jclean; assumption | apply strlist_jclean; assumption
+        | apply props_jclean; assumption ].
+
+Lemma steps_jclean steps : forallb (step_all pairfree) steps = true -> json_clean (json_save_steps tc steps) = true.
+Proof.
+  intro H. unfold json_save_steps. cbn [json_clean]. rewrite forallb_map. eapply forallb_impl; [|exact H].
+  intros [d st en logs] _ Hs. unfold step_all in Hs. cbn [st_description st_logs] in Hs. split_and.
+  jcsimp. conj; try jleaf. rewrite forallb_map. eapply forallb_impl; [|eassumption].
+  intros [lv m t|ds ok dt t|ds f im t|ds u t] _ Hl; unfold log_all in Hl; split_and; jcsimp; conj; jleaf.
+Qed.
+
+Lemma result_jclean r : result_all pairfree r = true -> json_clean (json_save_result tc r) = true.
+Proof.
+  destruct r as [st en s sd steps]. unfold result_all. cbn [r_status r_status_details r_steps]. intro H. split_and.
+  unfold json_save_result. jcsimp. conj; try jleaf. apply steps_jclean. assumption.
+Qed.
+
+Definition entries_clean (l : list (str * json)) : bool := forallb (fun kv => pairfree (fst kv) && json_clean (snd kv)) l.
+
+Lemma meta_jclean m : meta_all pairfree m = true -> entries_clean (json_save_node_metadata m) = true.
+Proof.
+  destruct m as [n d tg pr lk]. unfold meta_all. cbn [m_name m_description m_tags m_properties m_links]. intro H. split_and.
+  unfold json_save_node_metadata, entries_clean. jcsimp. conj; try jleaf.
+  rewrite forallb_map. eapply forallb_impl; [|eassumption]. intros [u o] _ Hl. cbn [fst snd] in *. split_and.
+  jcsimp. conj; jleaf.
+Qed.
+
+Lemma dict_set_clean k v l : pairfree k = true -> json_clean v = true -> entries_clean l = true ->
+  entries_clean (dict_set k v l) = true.
+Proof.
+  intros Hk Hv. unfold entries_clean. induction l as [|[k' v'] l IH]; cbn [dict_set forallb fst snd]; intro H.
+  - rewrite Hk, Hv. reflexivity.
+  - apply andb_true_iff in H as [H1 H2]. destruct (str_eqb k k'); cbn [forallb fst snd].
+    + rewrite Hk, Hv, H2. reflexivity.
+    + rewrite H1, IH by exact H2. reflexivity.
+Qed.
+Lemma jupdate_clean j es : json_clean j = true -> entries_clean es = true -> json_clean (jupdate j es) = true.
+Proof.
+  destruct j as [| | | | | |l]; try (intros; assumption). unfold jupdate. cbn [json_clean]. fold (entries_clean l).
+  revert l. induction es as [|[k v] es IH]; intros l Hl He; cbn [fold_left]; [exact Hl|].
+  unfold entries_clean in He. cbn [forallb fst snd] in He. apply andb_true_iff in He as [He1 He2].
+  apply andb_true_iff in He1 as [Hk Hv].
+  assert (json_clean (JObj (dict_set k v l)) = true) as Hd by (cbn [json_clean]; apply dict_set_clean; assumption).
+  specialize (IH (dict_set k v l) Hd He2). exact IH.
+Qed.
+
+Lemma test_jclean t : test_all pairfree t = true -> json_clean (json_save_test tc t) = true.
+Proof.
+  destruct t as [m r]. unfold test_all. cbn [t_meta t_result]. intro H. split_and.
+  unfold json_save_test. cbn [t_meta t_result]. apply jupdate_clean; [apply result_jclean | apply meta_jclean]; assumption.
+Qed.
+
+Lemma oresult_entries K o : pairfree K = true -> oresult_all pairfree o = true ->
+  entries_clean (match o with Some r => [(K, json_save_result tc r)] | None => [] end) = true.
+Proof.
+  intros HK H. destruct o as [r|]; [|reflexivity]. unfold entries_clean. cbn [forallb fst snd].
+  rewrite HK, result_jclean by exact H. reflexivity.
+Qed.
+Lemma entries_clean_app a b : entries_clean (a ++ b) = entries_clean a && entries_clean b.
+Proof. apply forallb_app. Qed.
+
+Lemma suite_jclean s : suite_all pairfree s = true -> json_clean (json_save_suite tc s) = true.
+Proof.
+  induction s as [m st en su td tests subs IH] using suite_ind'. cbn [suite_all]. intro H. split_and.
+  cbn [json_save_suite json_clean]. fold entries_clean.
+  rewrite !entries_clean_app. rewrite meta_jclean by assumption.
+  rewrite !oresult_entries by (reflexivity || assumption).
+  rewrite !andb_true_r. unfold entries_clean. jcsimp. conj; try jleaf.
+  - rewrite forallb_map. eapply forallb_impl; [|eassumption]. intros x _ Hx. apply test_jclean. exact Hx.
+  - rewrite forallb_map. rewrite Forall_forall in IH. eapply forallb_impl; [|eassumption]. intros x Hin Hx. apply IH; assumption.
+Qed.
+
+Lemma report_jclean now r : json_safeb r = true -> json_clean (json_save_report tc now r) = true.
+Proof.
+  destruct r as [title info st en sav nb su td suites]. unfold json_safeb, report_all.
+  cbn [rp_title rp_info rp_session_setup rp_session_teardown rp_suites]. intro H. split_and.
+  unfold json_save_report.
+  cbn [json_clean rp_title rp_info rp_start rp_end rp_nb_threads rp_session_setup rp_session_teardown rp_suites].
+  fold entries_clean. rewrite !entries_clean_app. rewrite !oresult_entries by (reflexivity || assumption).
+  rewrite ?andb_true_r. unfold entries_clean. jcsimp. conj; try jleaf.
+  - rewrite forallb_map. eapply forallb_impl; [|eassumption]. intros [k v] _ Hx. cbn [fst snd] in *. split_and. jcsimp. conj; jleaf.
+  - rewrite forallb_map. eapply forallb_impl; [|eassumption]. intros x _ Hx. apply suite_jclean. exact Hx.
+Qed.
+
 (* file level, through reporting.loader with the default backends (the XML backend is tried first and refuses the file) *)
-Theorem json_file_rt now r : unique_keys r ->
+Theorem json_file_rt now r : json_safeb r = true -> unique_keys r ->
   save_then_load tc BJson now r = Ok (with_saving (Some now) r).
 Proof.
-  intro Hu. unfold save_then_load, backend_save, json_save_file. cbn [bind].
+  intros Hs Hu. unfold save_then_load, backend_save, json_save_file. cbn [bind].
   unfold default_backends, loader_load, backend_load. cbn [xml_load_file].
-  unfold json_load_file. unfold json_save_report at 1.
+  unfold json_load_file. rewrite (jclean_norm _ (report_jclean now r Hs)). unfold json_save_report at 1.
   change (jget_or_null K_report_version _) with (JFloat 11 (-1)). cbn [json_version_ge2 bind].
   change ((if (-1 <? 0)%Z then (2 * 10 ^ (- -1) <=? 11)%Z else (2 <=? 11 * 10 ^ (-1))%Z)) with false. cbn iota.
   fold (json_save_report tc now r). rewrite json_report_rt by exact Hu. reflexivity.
